@@ -44,12 +44,13 @@ def rich_story(rng, sid, timing=None):
         r = rng.random()
         if r < 0.5:
             extra = []
+            blank = rng.random() < 0.15              # optional tags that are present but empty
             if rng.random() < 0.5:
-                extra.append(E('objID', text='obj%d' % j))
+                extra.append(E('objID', text=None if blank else 'obj%d' % j))
             if rng.random() < 0.4:
-                extra.append(E('mosID', text='mos.id'))
+                extra.append(E('mosID', text=None if blank else 'mos.id'))
             if rng.random() < 0.4:
-                extra.append(E('objType', text='VIDEO'))
+                extra.append(E('objType', text=None if blank else 'VIDEO'))
             if rng.random() < 0.5:
                 shape = rng.random()
                 if shape < 0.6:
@@ -63,10 +64,14 @@ def rich_story(rng, sid, timing=None):
                 extra.append(E('mosExternalMetadata', E('mosPayload', E('studioCommands', E('studioCommand', type='x'), note))))
             if rng.random() < 0.15:
                 extra.append(gens.decoy_block())     # nested story / item / p / StoryDuration inside the item's payload
-            body.append(item('i%d' % j, slug=('slug %d' % j) if rng.random() < 0.7 else None, extra=extra))
+            it = item('i%d' % j, slug=('slug %d' % j) if rng.random() < 0.7 else None, extra=extra)
+            if blank:
+                it.insert(1, E('itemSlug'))
+            body.append(it)
         else:
             body.append(p(rng.choice(['hello', '  spaced  ', '(note)', '<tech>', '(half', 'half>', '(a) and (b)', '', None,
-                                      ' ', ' wide ', ' nbsp ', '((nested))', '<a>b<c>', 'Zoë says ☃', '\t(tabbed)\n', '(mixed>', '<mixed)', '(a) b <c>', '<x) y (z>', ')(', '><'])))
+                                      ' ', ' wide ', ' nbsp ', '((nested))', '<a>b<c>', 'Zoë says ☃', '\t(tabbed)\n', '(mixed>', '<mixed)', '(a) b <c>', '<x) y (z>', ')(', '><',
+                                      '(CAPTION: JANE\nReporter)', '<CAM 2\n   wide shot>', '\n  (padded\nnote)\n', 'two\nlines', '(half\nopen', '()', '<>'])))
     if rng.random() < 0.2:
         body.append(E('pi', text='other element'))
     meta = None
@@ -79,6 +84,10 @@ def rich_story(rng, sid, timing=None):
 
 def rich_ro(rng, n, all_timed=False, dup_ids=False):
     kids = ro_head()
+    if rng.random() < 0.1:
+        kids = [E('roID', text='RO1'), E('roSlug')]          # a slug that is present but empty
+    elif rng.random() < 0.05:
+        kids = [E('roID')]                                   # a blank roID and no slug at all
     st = rng.choice(TIMES)
     if st is not None:
         kids.append(E('roEdStart', text=st))
@@ -340,7 +349,7 @@ class ReportCheck:
         return v
 
 
-KNOWN_FIELDS = {'completed', 'start', 'end', 'duration', 'script', 'body', 'stories', 'id', 'slug', 'dur', 'off', 'items'}
+KNOWN_FIELDS = {'completed', 'roid', 'roslug', 'start', 'end', 'duration', 'script', 'body', 'stories', 'id', 'slug', 'dur', 'off', 'items'}
 
 
 def xml_facts(text):
@@ -388,7 +397,7 @@ def well_formed(rc):
 
 class Check(ReportCheck):
     pid = 'C15'
-    fields_ro = ('completed', 'start', 'end', 'duration', 'script', 'body', 'stories')
+    fields_ro = ('completed', 'roid', 'roslug', 'start', 'end', 'duration', 'script', 'body', 'stories')
     fields_story = ('id', 'slug', 'dur', 'off', 'start', 'end', 'script', 'body', 'items')
     rule = ('seeded random running orders of 0..5 [0..11] stories carrying every subset of {mosExternalMetadata, mosPayload, '
             'StoryDuration, TextTime, MediaTime, StoryStarted, StoryEnded, slug, items with/without objID / mosID / objType / note, '
@@ -401,7 +410,14 @@ class Check(ReportCheck):
         if rep == 'norc':
             return None
         import re
+        rc0 = impl.parse_doc(text).find('roCreate')
+        rep0 = rep
+        for tag, field in (('roID', 'roid'), ('roSlug', 'roslug')):
+            if rc0 is not None and rc0.find(tag) is None:
+                # roID / roSlug are required children of roCreate: ro.ro_id / ro.ro_slug raising without them is no claim
+                rep = re.sub(r' %s=E\w+' % field, '', rep)
         m = re.search(r'(?:=| )E(\w+)', rep)            # field=E<exception>, or an item field token E<exception>
+        rep = rep0
         if m:
             if not well_formed(impl.parse_doc(text).find('roCreate')):
                 return None
